@@ -1,0 +1,258 @@
+# Copyright 2025 Google LLC
+#
+# Licensed under the Apache License, Version 2.0 (the "License");
+# you may not use this file except in compliance with the License.
+# You may obtain a copy of the License at
+#
+#     https://www.apache.org/licenses/LICENSE-2.0
+#
+# Unless required by applicable law or agreed to in writing, software
+# distributed under the License is distributed on an "AS IS" BASIS,
+# WITHOUT WARRANTIES OR CONDITIONS OF ANY KIND, either express or implied.
+# See the License for the specific language governing permissions and
+# limitations under the License.
+"""Verification trace hooks (off unless ``GAPIC_GENERATOR_VERIF`` names an ndjson file).
+
+Each event is one JSON line ``{"seq": n, "pid": p, "ev": name, ...}`` written after the
+pipeline step it describes.  The functions here only *read* schema objects and never
+raise: a projection that fails is recorded as ``"ERR:<type>"``.
+"""
+
+import json
+import os
+
+GUARD = "GAPIC_GENERATOR_VERIF"
+ENABLED = bool(os.environ.get(GUARD))
+
+_seq = 0
+_fh = None
+
+
+def emit(ev, **fields):
+    """Append one event to the trace file."""
+    global _seq, _fh
+    path = os.environ.get(GUARD)
+    if not path:
+        return
+    try:
+        if _fh is None or _fh.name != path:
+            _fh = open(path, "a")
+        _seq += 1
+        rec = {"seq": _seq, "pid": os.getpid(), "ev": ev}
+        rec.update(fields)
+        _fh.write(json.dumps(rec, default=repr, sort_keys=True) + "\n")
+        _fh.flush()
+    except Exception:  # pragma: NO COVER
+        pass
+
+
+def _try(fn, default=None):
+    try:
+        return fn()
+    except Exception as exc:  # pragma: NO COVER
+        return "ERR:" + type(exc).__name__ if default is None else default
+
+
+def _segs(path):
+    return path.split("/")
+
+
+def options_event(opts, parameter):
+    emit(
+        "Options",
+        parameter=parameter,
+        name=opts.name,
+        namespace=list(opts.namespace),
+        warehouse=opts.warehouse_package_name,
+        transport=list(opts.transport),
+        metadata=bool(opts.metadata),
+        autogen_snippets=bool(opts.autogen_snippets),
+        rest_numeric_enums=bool(opts.rest_numeric_enums),
+        add_iam_methods=bool(opts.add_iam_methods),
+        old_naming=bool(opts.old_naming),
+        lazy_import=bool(opts.lazy_import),
+        has_retry=bool(opts.retry),
+        has_service_yaml=bool(opts.service_yaml_config),
+        proto_plus_deps=list(opts.proto_plus_deps),
+    )
+
+
+def _type_name(t):
+    ident = getattr(t, "ident", None)
+    if ident is not None and hasattr(ident, "proto"):
+        return _try(lambda: ident.proto)
+    return _try(lambda: str(t))
+
+
+def _field(f):
+    return {
+        "name": f.name,
+        "proto_name": f.field_pb.name,
+        "number": f.field_pb.number,
+        "repeated": bool(f.repeated),
+        "map": bool(f.map),
+        "required": bool(f.required),
+        "optional": bool(f.field_pb.proto3_optional),
+        "type": _type_name(f.type),
+        "kind": int(f.field_pb.type),
+    }
+
+
+def _retry(r):
+    if r is None:
+        return None
+    return {
+        "max_attempts": r.max_attempts,
+        "initial": r.initial_backoff,
+        "max": r.max_backoff,
+        "mult": r.backoff_multiplier,
+        "codes": sorted(_try(lambda: c.__name__, "?") for c in r.retryable_exceptions),
+        "codes_order": [_try(lambda: c.__name__, "?") for c in r.retryable_exceptions],
+    }
+
+
+def _method(service, m):
+    def routing():
+        rule = m.routing_rule
+        if rule is None:
+            return None
+        return [
+            {"field": p.field, "tmpl": p.path_template, "key": _try(lambda: p.key)}
+            for p in rule.routing_parameters
+        ]
+
+    def http():
+        return [
+            {"verb": h.method, "uri": h.uri, "body": h.body} for h in m.http_options
+        ]
+
+    def flattened():
+        return [
+            {"key": k, "proto_name": f.field_pb.name, "name": f.name}
+            for k, f in m.flattened_fields.items()
+        ]
+
+    def lro():
+        if m.lro is None:
+            return None
+        return {
+            "response": m.lro.response_type.ident.proto,
+            "metadata": m.lro.metadata_type.ident.proto,
+        }
+
+    def ext_lro():
+        if m.extended_lro is None:
+            return None
+        return {
+            "request": m.extended_lro.request_type.ident.proto,
+            "operation": m.extended_lro.operation_type.ident.proto,
+        }
+
+    return {
+        "service": service.meta.address.proto,
+        "name": m.name,
+        "client_method_name": _try(lambda: m.client_method_name),
+        "transport_safe_name": _try(lambda: m.transport_safe_name),
+        "internal": bool(m.is_internal),
+        "input": _try(lambda: m.input.ident.proto),
+        "output": _try(lambda: m.output.ident.proto),
+        "input_fields": _try(lambda: [_field(f) for f in m.input.fields.values()]),
+        "output_fields": _try(lambda: [_field(f) for f in m.output.fields.values()]),
+        "cs": bool(m.client_streaming),
+        "ss": bool(m.server_streaming),
+        "stub": _try(lambda: m.grpc_stub_type),
+        "void": _try(lambda: bool(m.void)),
+        "paged_field": _try(
+            lambda: m.paged_result_field.name if m.paged_result_field else None, "ERR"
+        ),
+        "lro": _try(lro),
+        "extended_lro": _try(ext_lro),
+        "flattened": _try(flattened),
+        "field_headers": _try(
+            lambda: [
+                {"raw": h.raw, "disambiguated": h.disambiguated}
+                for h in m.field_headers
+            ]
+        ),
+        "explicit_routing": _try(lambda: bool(m.explicit_routing)),
+        "routing": _try(routing),
+        "http": _try(http),
+        "retry": _try(lambda: _retry(m.retry)),
+        "timeout": m.timeout,
+        "deprecated": _try(lambda: bool(m.is_deprecated)),
+        "query_params_order": _try(lambda: list(m.query_params)),
+    }
+
+
+def _message_names(proto):
+    return sorted(proto.all_messages.keys())
+
+
+def api_built(api, package, opts):
+    """One ``Naming`` event, one ``Proto`` event per file, one ``Method`` event per RPC."""
+    n = api.naming
+    emit(
+        "Naming",
+        package=package,
+        name=n.name,
+        namespace=list(n.namespace),
+        version=n.version,
+        proto_package=n.proto_package,
+        module_name=_try(lambda: n.module_name),
+        versioned_module_name=_try(lambda: n.versioned_module_name),
+        module_namespace=_try(lambda: list(n.module_namespace)),
+        warehouse_package_name=_try(lambda: n.warehouse_package_name),
+    )
+    for name, proto in api.all_protos.items():
+        emit(
+            "Proto",
+            file=_segs(name),
+            target=bool(proto.file_to_generate),
+            package=proto.file_pb2.package,
+            module_name=_try(lambda: proto.module_name),
+            subpackage=_try(lambda: list(proto.meta.address.subpackage)),
+            messages=_try(lambda: _message_names(proto)),
+            enums=_try(lambda: sorted(proto.all_enums.keys())),
+            services=_try(lambda: sorted(proto.services.keys())),
+            names_order=_try(lambda: list(proto.names)) if proto.file_to_generate else [],
+        )
+    for service in api.services.values():
+        emit(
+            "Service",
+            service=service.meta.address.proto,
+            client_name=_try(lambda: service.client_name),
+            async_client_name=_try(lambda: service.async_client_name),
+            module_name=_try(lambda: service.module_name),
+            host=_try(lambda: service.host),
+            internal=_try(lambda: bool(service.is_internal)),
+            resource_order=_try(
+                lambda: [m.resource_type_full_path for m in service.resource_messages]
+            ),
+            resources=_try(
+                lambda: sorted(
+                    [str(m.resource_type_full_path), list(m.resource_path_args), str(m.resource_path)]
+                    for m in service.resource_messages
+                )
+            ),
+            names_order=_try(lambda: list(service.names)),
+        )
+        for m in service.methods.values():
+            emit("Method", **_method(service, m))
+
+
+def selective_event(mode, methods, allowlist=None):
+    emit(
+        "Selective",
+        mode=mode,
+        methods=sorted(methods),
+        allow=sorted(_try(lambda: a.proto, "?") for a in (allowlist or [])),
+    )
+
+
+def response_event(res):
+    emit(
+        "Response",
+        files=[_segs(f.name) for f in res.file],
+        supported_features=int(res.supported_features),
+        error=res.error if res.HasField("error") else None,
+    )
